@@ -276,6 +276,39 @@ def vecDedup (eq : Expr → Expr → R Expr) : List Expr → List Expr → R (Li
   | e :: tl, acc => do
       if ← vecIn eq e acc then vecDedup eq tl acc else vecDedup eq tl (acc ++ [e])
 
+/-! ## memory expressions (only `mem(reg, size, disp, endian)` leaves: address = `ptr` on a register, no segment) -/
+
+/-- `mem.__getitem__` for a checked slice `[sta, sto)`: the covering bytes `mem(a, 8·(b2-b1), disp=b1)` (counted
+    from the other end for big-endian), narrowed by a `slc` when the slice does not start and end on a byte. -/
+def memGetitem (x : Expr) (sta sto : Nat) : R Expr :=
+  match x with
+  | .mem (.ptr (.reg n bs _) none d ps _) size sf be mods =>
+      let b1 := sta / 8
+      let r1 := sta % 8
+      let b2 := (sto + 7) / 8
+      let r2 := sto % 8
+      let c1 : Int := if be then ((size / 8 : Nat) : Int) - (b2 : Int) else (b1 : Int)
+      let y := Expr.mem (.ptr (.reg n bs false) none (d + c1) ps false) ((b2 - b1) * 8) sf be mods
+      if r1 > 0 || r2 > 0 then .ok (.slc y r1 (sto - sta) sf none 0) else .ok y
+  | _ => .error .unmodelled
+
+/-- `mem.simplify()`: the address is normalised (`ptr.simplify`), the node stays -/
+def memSimplify (x : Expr) : R Expr :=
+  match x with
+  | .mem (.ptr (.reg n bs _) none d ps _) size sf be mods => .ok (.mem (.ptr (.reg n bs false) none d ps false) size sf be mods)
+  | _ => .error .unmodelled
+
+/-- `slc.simplify()` on a slice of a memory expression: a byte-aligned slice of whole bytes becomes
+    `mem(ptr(base, seg, disp + pos/8), size)` (as the code does it: little-endian default, no mods), any other
+    slice stays -/
+def slcMem (x : Expr) (pos size : Nat) (sf : Bool) (ref : Option String) (ety : Nat) : R Expr :=
+  match x with
+  | .mem (.ptr (.reg n bs _) none d ps _) _ _ _ _ =>
+      if size % 8 == 0 && pos % 8 == 0 then
+        .ok (.mem (.ptr (.reg n bs false) none (d + ((pos / 8 : Nat) : Int)) ps false) size sf false [])
+      else .ok (.slc x pos size sf ref ety)
+  | _ => .error .unmodelled
+
 end Expr
 
 open Expr
@@ -292,14 +325,15 @@ def simplify : Nat → Opts → Expr → R Expr
   | fuel + 1, o, e =>
     match e with
     | .cst .. | .reg .. | .ext .. | .top .. | .vecw .. => .ok e
-    | .mem .. | .ptr .. => .error .unmodelled
+    | .mem .. => memSimplify e
+    | .ptr .. => .error .unmodelled
     | .slc x pos size sf ref ety => do
         let x ← simplify fuel o x
         if !x.isDef then return mkTop size
         if x.isCmp || x.isCst then
           let res ← getitem fuel x pos (pos + size)
           return res.setSf sf
-        if x.isMem then throw .unmodelled
+        if x.isMem then return ← slcMem x pos size sf ref ety
         match x with
         | .op xo xl xr _ _ _ =>
             if xo.type == 2 || ((xo == Op.add || xo == Op.sub) && pos == 0) then
@@ -731,7 +765,7 @@ def getitem : Nat → Expr → Int → Int → R Expr
     | .slc x' p s _ _ _ =>
         if sta == 0 && sto == s then return x
         else slicer fuel x' (p + sta) (sto - sta)
-    | .mem .. => throw .unmodelled
+    | .mem .. => memGetitem x sta sto
     | .vec l _ _ => do
         let l' ← l.mapM (fun y => getitem fuel y start stop)
         mkVec l'
